@@ -309,8 +309,10 @@ PROPS = {
                 "deinterlace_bytes with increment_pass and the constants table, modelled literally) over the lines the scan-line iterator cuts from the interlaced data: invariant 'the working lines agree with the "
                 "original wherever something was written' (every write puts the original's value: scatter_agrees), one pass = induction over its rows (run_pass_rows), the chain over passes by strong induction with "
                 "increment_pass = next non-empty pass (run_from_pass), every position written by the pass of its pixel (all_covered), and interlace_image's output shown to be exactly those lines (interlaceData_eq). "
-                "Still resting on the exhaustive-up-to-bound correspondence: the same round trip for pixels of 1, 2 and 4 bits (deinterlace_bits; its row-level bit selection is proved, the machine run is not) and the "
-                "opposite order (interlace after deinterlace of arbitrary interlaced data). "
+                "deinterlace_interlace_bits: the same for pixels below 8 bits (deinterlace_bits: the machine is generic in the unit - byte or bit -, the line encoder and the units reader; bit_units_roundtrip shows the "
+                "u32 subtraction never underflows on a pass that has pixels and that the reader cuts the padding off) - every row's pixels come back unchanged (returned_row_pixels) and the unused bits after a row's last "
+                "pixel come back as zero, so the image comes back byte for byte whenever its padding bits were zero (deinterlace_interlace_bits_exact). "
+                "Still resting on the exhaustive-up-to-bound correspondence: the opposite order (interlace after deinterlace of arbitrary interlaced data). "
                 "Trusted: Lean kernel, correspondence tie (tested), harness reference geometry.",
         "technique": "Lean 4 proof (omega over unbounded sizes) + exhaustive-to-bound model/implementation correspondence",
         "rule": "all (w,h) in 1..24 (thorough 1..72) x legal colour-type/depth pairs x interlaced/not x with/without filter byte, plus sparse large sizes and "
